@@ -24,7 +24,15 @@ func (P *Prog) countersignBuilder() (*ssa.Function, int) {
 		for _, b := range fn.Blocks {
 			for _, in := range b.Instrs {
 				if ta, ok := in.(*ssa.TypeAssert); ok && ta.CommaOk {
-					if p, ok := ta.X.(*ssa.Parameter); ok {
+					x := ta.X
+					// the switch may operate on a normalised view of the
+					// parameter produced by an in-package helper
+					if c, ok := x.(*ssa.Call); ok {
+						if h := c.Call.StaticCallee(); h != nil && P.inPkg(h) && len(c.Call.Args) == 1 {
+							x = c.Call.Args[0]
+						}
+					}
+					if p, ok := x.(*ssa.Parameter); ok {
 						if n, ok := ta.AssertedType.(*types.Named); ok && P.isStructureType(n) {
 							kinds[n.Obj().Name()] = true
 							pi = paramIndex(p)
@@ -107,6 +115,7 @@ func runC10(r *Report, tier string) {
 	formCtx := map[bool]map[string]bool{false: {}, true: {}}
 	seen := map[string]bool{}
 	nPtr := 0
+	derefKinds := 0
 	npaths := 0
 	for _, p := range P.deepPaths(F) {
 		if !p.feasible() {
@@ -125,8 +134,20 @@ func runC10(r *Report, tier string) {
 		r.paths++
 		// which arm?
 		kind, isPtr := "", false
+		tgt := target
 		for _, c := range p.conds {
-			if c.Val && c.Pred.Op == "res" && c.Pred.S == "1" && c.Pred.Args[0].Op == "typeassert" && c.Pred.Args[0].Args[0].eq(target) {
+			if c.Val && c.Pred.Op == "res" && c.Pred.S == "1" && c.Pred.Args[0].Op == "typeassert" {
+				opnd := c.Pred.Args[0].Args[0]
+				if !opnd.eq(target) {
+					n := derefViewLeaves(P, opnd, target)
+					if n < 0 {
+						continue
+					}
+					if n > derefKinds {
+						derefKinds = n
+					}
+				}
+				tgt = P.terms.expand(opnd, 8)
 				tn := strings.TrimSuffix(c.Pred.Args[0].S, ",ok")
 				kind, isPtr = strings.TrimPrefix(tn, "*"), strings.HasPrefix(tn, "*")
 			}
@@ -171,7 +192,7 @@ func runC10(r *Report, tier string) {
 			seen[key] = true
 			o := r.ob("R10.1", fmt.Sprintf("%s:%s:%s", shortFn(F), key, pathID(p)), F, p.ret, "arm yields the RFC 9338 Countersign_structure for this parent kind")
 			// the parent value: every alloc used as parent copy must hold the asserted value
-			tval := &Term{Op: "res", S: "0", Args: []*Term{{Op: "typeassert", S: kind + ",ok", Args: []*Term{target}}}}
+			tval := &Term{Op: "res", S: "0", Args: []*Term{{Op: "typeassert", S: kind + ",ok", Args: []*Term{tgt}}}}
 			// helpers that pick a constant (e.g. the context string) are evaluated
 			// under this path's knowledge plus the form being examined
 			content := canon(p.eng.expand(P.evalCalls(&fp, P.foldGlobals(res[0].subst(m)), factSet{}, 0), 8))
@@ -257,6 +278,12 @@ func runC10(r *Report, tier string) {
 				for _, f := range common {
 					fs.add(f)
 				}
+				// facts spelt through a view helper of the parameter
+				for _, f := range fs.clone() {
+					if f.Pred.contains(func(u *Term) bool { return u.Op == "call" && P.calleeOfTerm(u) != nil }) {
+						fs.add(normFact(P.terms.expand(f.Pred, 8), f.Val))
+					}
+				}
 			}
 			for _, rf := range arm.refuse {
 				parts := strings.SplitN(rf, ":", 2)
@@ -303,7 +330,7 @@ func runC10(r *Report, tier string) {
 	}
 	sort.Strings(missing)
 	r.ob("R10.2", shortFn(F)+":all-cells", F, nil, "all four parent kinds succeed in both forms (8 cells of the table)").check(len(missing) == 0, "8 cells", "no success path for "+strings.Join(missing, ", "))
-	r.ob("R10.1", shortFn(F)+":pointer-arms", F, nil, "four pointer arms").check(nPtr == 4, "4", fmt.Sprintf("%d pointer arms", nPtr))
+	r.ob("R10.1", shortFn(F)+":pointer-arms", F, nil, "pointer parents of all four kinds are handled as the values they point to (four re-dispatching arms, or one dereferencing view of the parameter)").check(nPtr == 4 || (nPtr == 0 && derefKinds == 4), "4", fmt.Sprintf("%d pointer arms, dereferencing view covers %d kinds", nPtr, derefKinds))
 	r.floorSoft("R10.1", npaths, 12, "success paths of the builder")
 
 	// R10.3
@@ -406,6 +433,46 @@ func builderCallAt(P *Prog, s *keySite, F *ssa.Function) *Term {
 	return nil
 }
 
+// derefViewLeaves: t is a call of an in-package helper on target whose
+// result is target itself or the value a structure pointer in target points
+// to; returns the number of pointer kinds dereferenced (-1: not such a view).
+func derefViewLeaves(P *Prog, t, target *Term) int {
+	if t.Op != "call" || len(t.Args) != 1 || !t.Args[0].eq(target) || P.calleeOfTerm(t) == nil {
+		return -1
+	}
+	ex := P.terms.expand(t, 2)
+	n := 0
+	ok := true
+	var walk func(u *Term)
+	walk = func(u *Term) {
+		switch u.Op {
+		case "gate":
+			walk(u.Args[1])
+			walk(u.Args[2])
+		case "alt", "phi", "choice":
+			for _, a := range u.Args {
+				walk(a)
+			}
+		case "iface":
+			walk(u.Args[0])
+		default:
+			if u.eq(target) {
+				return
+			}
+			if u.Op == "load" && u.Args[0].Op == "res" && u.Args[0].S == "0" && u.Args[0].Args[0].Op == "typeassert" && strings.HasPrefix(u.Args[0].Args[0].S, "*") && u.Args[0].Args[0].Args[0].eq(target) {
+				n++
+				return
+			}
+			ok = false
+		}
+	}
+	walk(ex)
+	if !ok {
+		return -1
+	}
+	return n
+}
+
 // isCopyOf: t is an alloc of F that holds the value v unchanged: its only
 // store is the whole value v, its fields are only read, and no call that
 // receives its address writes through it.
@@ -431,7 +498,8 @@ func isCopyOf(P *Prog, F *ssa.Function, t, v *Term) bool {
 								return false
 							}
 							n++
-							okv = P.terms.of(u.Val).eq(v)
+							sv := P.terms.of(u.Val)
+							okv = sv.eq(v) || P.terms.expand(sv, 8).eq(v)
 						} else {
 							return false // the address itself is stored somewhere
 						}
